@@ -232,8 +232,8 @@ class BPlusTreeMap:
         while not node.is_leaf():
             node = node.get_child(key)
 
-        value = node.get(key)
-        return value if value is not None else default
+        pos, exists = node.find_position(key)
+        return node.values[pos] if exists else default
 
     def __contains__(self, key: Any) -> bool:
         """Check if key exists (for 'in' operator)"""
